@@ -25,6 +25,8 @@ type Result struct {
 	Executions  int
 	Pruned      int
 	Cut         int // executions stopped early at an already expanded state
+	Judged      int // executions that ran to completion and were judged by the oracle
+	JudgedConfl int // ... of which two threads touched the same object inside the window
 	States      int
 	Steps       int
 	MaxPoints   int
@@ -94,6 +96,10 @@ func (e *Explorer) RunItem(it Item) []Item {
 		e.Res.Cut++
 	} else {
 		out, sig, detail := e.Check(x)
+		e.Res.Judged++
+		if x.ConflictObjects() > 0 {
+			e.Res.JudgedConfl++
+		}
 		e.Res.Outcomes[out]++
 		if sig != "" {
 			e.Res.Failures = append(e.Res.Failures, Found{Choices: x.Choices(), Outcome: out, Sig: sig, Detail: detail, Cost: it.Cost})
